@@ -737,6 +737,7 @@ func stageConfigs(lib string, n int) [][]string {
 	}
 	add("compact=eq")
 	add("compact=par")
+	add("compactw")
 	add("filter=even")
 	add("filter=nz")
 	add("map=inc")
@@ -786,6 +787,39 @@ func exhaustive(deadline time.Time) bool {
 		return false
 	}
 	// 1. fault-free: every input over {0,1} up to length 6 x every combinator x every parameter
+	// 0. every constructor: Counter / Repeat for n = -1..7, Empty, Error; Slice, Chan, FromIterator over every input
+	for n := -1; n <= 7; n++ {
+		check([]string{"it counter=" + strconv.Itoa(n), "icollect 0"})
+		check([]string{"it repeat=" + strconv.Itoa(n), "icollect 0"})
+		check([]string{"it counter=" + strconv.Itoa(n), "inextit 0", "inextit 0", "inextit 0"})
+		check([]string{"xs src=5 repeat=" + strconv.Itoa(n)})
+	}
+	check([]string{"it empty", "inextit 0", "inextit 0"})
+	check([]string{"st empty", "next 1", "next 0", "next 1", "close"})
+	check([]string{"st error=3", "next 1", "next 0", "close"})
+	allInputs(5, func(items []int) {
+		src := itemsStr(items)
+		nx := make([]string, len(items)+2)
+		ix := make([]string, len(items)+2)
+		for i := range nx {
+			nx[i], ix[i] = "next 1", "inextit 0"
+		}
+		for _, h := range []string{"slice=", "chan="} {
+			check(append([]string{"it " + h + src}, ix...))
+			check([]string{"it " + h + src + " compactw", "icollect 0"})
+		}
+		for _, h := range []string{"fromit=", "chan="} {
+			check(append(append([]string{"st " + h + src}, nx...), "close"))
+			check([]string{"st " + h + src + " compactw", "collect 1"})
+		}
+		check(append(append([]string{"st fromit=" + src, "next 0"}, nx...), "close"))
+		check([]string{"xs src=" + src + " reduce"})
+		check([]string{"xs src=" + src + " equal=" + src})
+		check([]string{"xs src=" + src + " equal=" + itemsStr(append(append([]int{}, items...), 1))})
+		reportAgree([]string{"src=" + src, "reduce"})
+		reportAgree([]string{"src=" + src, "equal=" + src})
+		reportAgree([]string{"src=" + src, "compactw"})
+	})
 	allInputs(6, func(items []int) {
 		if over() {
 			return
@@ -965,7 +999,7 @@ func reportAgreeIfCommon(toks []string) {
 	for _, t := range toks[1:] {
 		k, arg := splitTok(t)
 		switch k {
-		case "chunk", "compact", "filter", "map", "join":
+		case "chunk", "compact", "compactw", "filter", "map", "join":
 		case "runs":
 			if !strings.HasSuffix(arg, ",all,0") && !strings.HasSuffix(arg, ",all,1") {
 				return
